@@ -70,7 +70,8 @@ class Contract:
     def __init__(self, qual, params=None, returns=None, requires=None, ensures=None, raises=None,
                  modifies=None, loops=None, locals=None, props=None, trusted=False, pure=False,
                  receivers=None, exc_attrs=None, note='', inline_callees=None, reveal=None, events=None,
-                 cases=None, verify=True, lemmas=None, call_reveal=None, after=None):
+                 cases=None, verify=True, lemmas=None, call_reveal=None, after=None, split=None):
+        self.split = split or []          # exhaustive alternatives of the precondition, verified one by one
         self.after = after or {}
         self.lemmas = lemmas or []
         self.call_reveal = call_reveal or []   # definitions unfolded at every call site (over the parameters)
